@@ -352,6 +352,7 @@ func (s *Netceptor) DialContext(ctx context.Context, node string, service string
 	}
 	cctx, ccancel := context.WithCancel(ctx)
 	go func() {
+		verifhook.Gate("dial_watch_before_select")
 		select {
 		case <-okChan:
 			return
